@@ -202,6 +202,7 @@ def correspond(res):
 
     # ---- second stream: the real model families on all grid types, independent quadrature per cell
     _real_stream(res, rng, viol, 1 if not thorough else 4)
+    _copula_stream(res, rng, viol)
 
     header = ("From Coq Require Import ZArith QArith Qabs List Bool.\nFrom RV Require Import Base.QB Model.Grid Gen.GenC01Trunc Model.Chain.\n"
               "Open Scope Q_scope.")
@@ -247,7 +248,7 @@ def _real_stream(res, rng, viol, scale):
             from rpylib.grid.spatial import compute_truncation
             l = compute_truncation(model, h)[0]
             add("credit", lambda: CTMCCredit(h=h, level_a=float(rng.uniform(0.8 * l, -2 * h)), model=model))
-            if fam in ("HEM", "MERTON") and rep == 0:
+            if fam in ("HEM", "MERTON", "VG") and rep == 0:
                 add("probstep", lambda: CTMCGridProbabilityStep(h=0.05, model=model, minimum_probability_step=0.1))
             for gname, grid in grids:
                 lv = rng.choice([0, 1]) if gname != "probstep" else 0
@@ -271,10 +272,12 @@ def _real_stream(res, rng, viol, scale):
                     viol("reported intensity differs from the sum of the rates (real model, 1e-9 relative)", got=lam, want=float(np.sum(q)), **ctx)
                 if np.any(q < 0):
                     viol("negative rate (real model)", **ctx)
-                # independent quadrature of the density on (at most 12) cells
+                # independent quadrature of the density on (at most 12) cells; ALL cells on probability-step grids, where the
+                # grid's own middle is not the arithmetic mid-point (sums telescope even with wrong mid-points: compare per state)
                 ks = [k for k in range(n) if k != o]
-                if len(ks) > 12:
+                if len(ks) > 12 and gname != "probstep":
                     ks = sorted(rng.sample(ks, 10) + [ks[0], ks[-1]])
+                prob = chain.sampling.probability_to_jump_to_state
                 for k in ks:
                     lo = grid.middle(float(axis[max(0, k - 1)]), float(axis[k]))
                     hi = grid.middle(float(axis[k]), float(axis[min(n - 1, k + 1)]))
@@ -288,6 +291,92 @@ def _real_stream(res, rng, viol, scale):
                         viol("rate of a state differs from the quadrature of the model's own density over its cell", state=k,
                              got=float(q[k]), want=float(want), cell=[float(lo), float(hi)], **ctx)
                         break
+                    with warnings.catch_warnings():
+                        warnings.simplefilter("ignore")
+                        pk = float(prob(k - o))
+                    if abs(pk * lam - want) > 1e-6 * max(abs(want), 1e-12) + 1e-10 * lam:
+                        viol("inversion sampler's probability of a state is not (mass of the state's own cell)/intensity", state=k,
+                             got=pk * lam, want=float(want), cell=[float(lo), float(hi)], **ctx)
+                        break
+
+
+def clayton_F(u, v, theta, eta):
+    """independent implementation of the 2-d Clayton Levy copula"""
+    if u == 0 or v == 0:
+        return 0.0
+    val = (abs(u) ** (-theta) + abs(v) ** (-theta)) ** (-1.0 / theta)
+    return val * (eta if u * v >= 0 else -(1.0 - eta))
+
+
+def independent_mass2(F, U, a, b):
+    """mass of the rectangle [a1,b1]x[a2,b2] (not containing the origin) of the Levy measure with 2-d Levy copula F and
+    marginal tail integrals U[k](x) = sgn(x) nu_k(I(x)); a rectangle straddling an axis is split by complement"""
+    (a1, a2), (b1, b2) = a, b
+
+    def quad_rect(x1, y1, x2, y2):          # no straddling: volume of the tail integral
+        f = lambda s, t: F(U[0](s), U[1](t))
+        return f(x1, x2) + f(y1, y2) - f(x1, y2) - f(y1, x2)
+    inf = float("inf")
+    if a1 < 0 < b1 and a2 < 0 < b2:
+        raise ValueError("rectangle contains the origin")
+    if a1 < 0 < b1:      # straddles the axis x1 = 0: margin 2 mass minus the two outer strips
+        m2 = U[1](a2) - U[1](b2)
+        return m2 - quad_rect(b1, inf, a2, b2) - quad_rect(-inf, a1, a2, b2)
+    if a2 < 0 < b2:
+        m1 = U[0](a1) - U[0](b1)
+        return m1 - quad_rect(a1, b1, b2, inf) - quad_rect(a1, b1, -inf, a2)
+    return quad_rect(a1, b1, a2, b2)
+
+
+def _copula_stream(res, rng, viol):
+    """two LevyCopulaModel instances with different margins alive in the same process; the rates of BOTH are compared
+    with an independent computation (own Clayton formula, own tail integrals from the step margins)"""
+    from rpylib.process.markovchain.markovchainlevycopula import MarkovChainLevyCopula
+    from rpylib.distribution.sampling import SamplingMethod
+    from rpylib.grid.spatial import CTMCUniformGrid
+    from stepmeasure import StepMeasure, step_spec, build_copula_model
+    import itertools
+    theta, eta = 0.75, 0.25
+    margin_sets = [
+        [StepMeasure([Fr(-2), Fr(0), Fr(2)], [Fr(3, 2), Fr(3)], strict=False), StepMeasure([Fr(-2), Fr(0), Fr(2)], [Fr(3), Fr(3, 4)], strict=False)],
+        [StepMeasure([Fr(-2), Fr(-1), Fr(0), Fr(2)], [Fr(3, 4), Fr(9, 4), Fr(6)], strict=False), StepMeasure([Fr(-2), Fr(0), Fr(1), Fr(2)], [Fr(9, 2), Fr(3, 4), Fr(3)], strict=False)],
+    ]
+    chains = []
+    for ms in margin_sets:      # build both first, then evaluate (a cache shared across instances would mix them up)
+        model = build_copula_model([step_spec(m) for m in ms], "clayton", theta=theta, eta=eta)
+        grid = CTMCUniformGrid.create_from_fixed_nb_of_points(h=0.5, nb_of_points=6, dimension=2)
+        chains.append((ms, MarkovChainLevyCopula(levy_copula_model=model, grid=grid, method=SamplingMethod.INVERSION), grid))
+    for which, (ms, chain, grid) in enumerate(chains):
+        def tail(k):
+            nu = ms[k]
+            return lambda x: (0.0 if x in (float("inf"), float("-inf")) else
+                              (float(nu.moment_q(x, nu.breaks[-1], 0)) if x >= 0 else -float(nu.moment_q(nu.breaks[0], x, 0))))
+        U = [tail(0), tail(1)]
+        F = lambda u, v: clayton_F(u, v, theta, eta)
+        ax = [float(x) for x in grid.axes[0]]
+        n, o = len(ax), grid.origin_coordinate.value[0]
+        lam = float(chain.intensity_of_jumps)
+        tot = 0.0
+        ctx = dict(kind="copula", instance=which, margins=[step_spec(m) for m in ms], theta=theta, eta=eta)
+        for i, j in itertools.product(range(n), repeat=2):
+            if (i, j) == (o, o):
+                continue
+            lo = tuple(0.5 * (ax[max(0, k - 1)] + ax[k]) for k in (i, j))
+            hi = tuple(0.5 * (ax[k] + ax[min(n - 1, k + 1)]) for k in (i, j))
+            lo_t = tuple(max(x, ax[0]) for x in lo)
+            hi_t = tuple(min(x, ax[-1]) for x in hi)
+            want = independent_mass2(F, U, lo_t, hi_t)
+            got = float(chain.model.mass(lo, hi))
+            pk = float(chain.sampling.probability_to_jump_to_state((i - o, j - o))) * lam
+            tot += got
+            res.count(("copula-cell", which, i, j), kind="copula chain cell")
+            if abs(got - want) > 1e-9 * (1 + lam) or abs(pk - max(want, 0.0)) > 1e-9 * (1 + lam):
+                viol("copula chain: rate of a state differs from the independently computed mass of its cell", state=[i, j],
+                     got=got, sampler=pk, want=want, **ctx)
+                break
+        else:
+            if abs(tot - lam) > 1e-9 * (1 + lam):
+                viol("copula chain: reported intensity differs from the sum of the cell masses", got=lam, want=tot, **ctx)
 
 
 def search(res):
@@ -303,6 +392,11 @@ def replay(path):
     print(json.dumps(data, indent=1)[:3000])
     from rpylib.distribution.samplingfactory import create_q_vector
     from stepmeasure import build_model, make_grid
+    if data.get("kind") == "copula":
+        out = []
+        _copula_stream(type("R", (), {"count": lambda *a, **kw: None})(), random.Random(0), lambda what, **kw: out.append((what, kw.get("state"), kw.get("got"), kw.get("want"))))
+        print("still fails:" if out else "no failure on replay", out[:3])
+        return 1 if out else 0
     if data.get("kind") not in ("step", "real"):
         print("replay: re-run ./check C01")
         return 1
